@@ -1334,13 +1334,57 @@ func (e *c12Engine) Minimize(ci interface{}, class string, f *Findings, budget t
 		}
 		return false
 	}
+	// tryResched: a structural reduction shifts the schedule; if the inherited
+	// pick list no longer fails, look for another schedule of the reduced case
+	// (a few seeds of each generator strategy) that fails the same way.
+	tryResched := func(c *C12Case) bool {
+		if try(c) {
+			return true
+		}
+		for i := 0; i < 12 && time.Now().Before(deadline) && !hungWorker; i++ {
+			c2 := c.clone()
+			c2.Strategy = []string{"insection-sweep", "uniform", "reader-holds", "writer-biased"}[i%4]
+			plan := buildPlan(c2)
+			if plan.trouble != "" {
+				return false
+			}
+			ex := runC12(c2, plan, strategyPicker(c2, mix64(c.Seed^uint64(i)*0x51f1)), false)
+			c2.Picks = ex.picksUsed
+			cr := e.finish(c2, ex, f)
+			for _, v := range cr.Violations {
+				if v.Class == class {
+					best = c2
+					return true
+				}
+			}
+		}
+		return false
+	}
+	// compactPool: keep only the queries some reader still issues
+	compactPool := func(c *C12Case) *C12Case {
+		used := map[int]int{}
+		var pool []C12Op
+		d := c.clone()
+		for ri := range d.Readers {
+			for qi, q := range d.Readers[ri] {
+				q %= len(c.Pool)
+				if _, ok := used[q]; !ok {
+					used[q] = len(pool)
+					pool = append(pool, c.Pool[q])
+				}
+				d.Readers[ri][qi] = used[q]
+			}
+		}
+		d.Pool = pool
+		return d
+	}
 	for round := 0; round < 4; round++ {
 		before := best.Size()
 		// drop whole readers
 		for i := len(best.Readers) - 1; i >= 0 && len(best.Readers) > 1; i-- {
 			c := best.clone()
 			c.Readers = append(c.Readers[:i:i], c.Readers[i+1:]...)
-			try(c)
+			tryResched(c)
 		}
 		// drop single queries
 		for ri := range best.Readers {
@@ -1360,7 +1404,7 @@ func (e *c12Engine) Minimize(ci interface{}, class string, f *Findings, budget t
 				continue
 			}
 			c.Writer = append(c.Writer[:i:i], c.Writer[i+1:]...)
-			try(c)
+			tryResched(c)
 		}
 		for i := len(best.Setup) - 1; i >= 0; i-- {
 			c := best.clone()
@@ -1368,7 +1412,7 @@ func (e *c12Engine) Minimize(ci interface{}, class string, f *Findings, budget t
 				continue
 			}
 			c.Setup = append(c.Setup[:i:i], c.Setup[i+1:]...)
-			try(c)
+			tryResched(c)
 		}
 		// shrink block sizes
 		for i := range best.Writer {
@@ -1403,6 +1447,10 @@ func (e *c12Engine) Minimize(ci interface{}, class string, f *Findings, budget t
 		if best.Size() >= before || time.Now().After(deadline) {
 			break
 		}
+	}
+	if c := compactPool(best); len(c.Pool) < len(best.Pool) {
+		// resolution of a query depends only on its own fields, so re-indexing keeps the run identical
+		try(c)
 	}
 	best.Strategy = ""
 	return best
